@@ -59,7 +59,7 @@ def _run_main(ctx):
         for l, dl in fn.defs.items():
             if fn.local_ty(l) not in ('u32', 'usize') or len(dl) < 3:
                 continue
-            resets = [b for (b, kd, rv) in dl if kd == 'A' and rv[0] == 'use' and rv[1][0] == 'k' and re.match(r'(const )?0_(u32|usize)$', rv[1][2]) and any(b in c for c in sccs)]
+            resets = [b for (b, kd, rv) in dl if kd == 'A' and rv[0] == 'use' and rv[1][0] == 'k' and re.match(r'(const )?0_(u32|usize)$', rv[1][2])]
             incs = [(b, rv) for (b, kd, rv) in dl if kd == 'A' and rv[0] == 'use' and rv[1][0] in ('c', 'm') and any(b in c for c in sccs)]
             if not resets or not incs:
                 continue
@@ -87,8 +87,30 @@ def _run_main(ctx):
                     r1.bad('column-advance|%s' % short, 'the column counter `%s` advances by a fixed amount per char instead of char::len_utf16(): positions on lines with astral-plane characters resolve to the wrong offset' % names[0], loc=fn.loc(b))
             if ok:
                 r1.ok('column-advance|%s' % short, loc=fn.loc(incs[0][0]))
-    if n_acc < 2:
-        r1.bad('column-accumulators', 'expected the two position conversion loops (offset_to_line_col, position_to_offset), found %d column accumulators' % n_acc)
+    # vacuity guard, stated as a necessary condition instead of a loop shape: a conversion between byte offsets and LSP
+    # columns has to count UTF-16 code units somewhere (directly or in a callee of the crate)
+    for conv in ('handlers::lsp_utils::offset_to_line_col', 'handlers::lsp_utils::position_to_offset'):
+        rec = fx.fns.get(L + conv)
+        if rec is None:
+            r1.bad('anchor-missing|%s' % conv.split('::')[-1], 'position conversion %s not found' % conv)
+            continue
+        seen_f, st, aware = set(), [L + conv], False
+        while st and not aware:
+            x = st.pop()
+            if x in seen_f or x not in fx.fns:
+                continue
+            seen_f.add(x)
+            for b_, nm_, t_ in F(fx.fns[x]).calls():
+                if nm_.endswith('len_utf16') or nm_.endswith('encode_utf16'):
+                    aware = True
+                elif nm_.startswith(L):
+                    st.append(nm_)
+            st.extend(fx.closures_of(x))
+        r1.saw()
+        if aware:
+            r1.ok('utf16-aware|%s' % conv.split('::')[-1])
+        else:
+            r1.bad('utf16-aware|%s' % conv.split('::')[-1], '%s no longer counts UTF-16 code units (no len_utf16 / encode_utf16 on its paths): columns are characters or bytes' % conv.split('::')[-1], loc='%s:%d' % (rec['file'], rec['line']))
     # Position constructions
     for k in sorted(fx.fns):
         if not k.startswith(L) or '::tests::' in k:
@@ -152,11 +174,23 @@ def _run_main(ctx):
                     return u16, byt
                 ua, ba = unit(oa)
                 uc, bc = unit(oc)
+                ba = ba or _char_count(fn, oa)
+                bc = bc or _char_count(fn, oc)
                 if ua or uc:
                     uses_units = True
                 if (ua and bc and not uc) or (uc and ba and not ua):
                     n_mix += 1
                     r1.bad('unit-mixing|%s' % short, 'a UTF-16 quantity (Position.character / rangeLength) is compared or combined with a byte quantity (offset or str::len): the two differ for every non-ASCII character', loc=fn.loc(b))
+        # min / max / clamp combine two quantities just like a comparison does
+        for b, nm, t in fn.calls(lambda n: re.search(r'core::cmp::(Ord::)?(min|max|clamp)$|core::cmp::Ord>::(min|max|clamp)$', n) is not None):
+            sides = [operand_origins(fn, a, through_ops=True) for a in t['a']]
+            u16 = [any(o[0] == 'field' and o[1].endswith('Position.character') for o in os) or any(o[0] == 'call' and (o[2].endswith('len_utf16') or o[2].endswith('encode_utf16')) for o in os) for os in sides]
+            oth = [(_char_count(fn, os) or any(o[0] == 'call' and re.search(r'<impl str>::len$|String::len$|lsp_utils::position_to_offset$', o[2]) for o in os)) and not u for os, u in zip(sides, u16)]
+            if any(u16):
+                uses_units = True
+            if any(u16) and any(oth):
+                n_mix += 1
+                r1.bad('unit-mixing|%s' % short, 'a UTF-16 column is clamped (min/max) against a character count or byte length: for a line with astral-plane characters the column is cut short of positions that exist', loc=fn.loc(b))
         if uses_units:
             r1.saw()
     if n_mix == 0:
@@ -361,3 +395,15 @@ def rule_r4(ctx):
             r4.bad(key, 'the %s entry point hands its work to a spawned task: the edit is no longer applied before the next message is dispatched, so a request right behind it is answered for the old text and two changes can be applied out of order (the stored text then diverges from the editor for good)' % name, loc=fn.loc(spawns[0][0]))
         else:
             r4.bad(key, 'the %s entry point no longer calls the sync handler directly (shape not recognised)' % name, loc=fn.loc(0))
+
+
+def _char_count(fn, os):
+    """the origin set contains a count of `chars()` / `char_indices()` (characters, not UTF-16 units)"""
+    for o in os:
+        if o[0] == 'call' and re.search(r'Iterator>::count$|Iterator::count$', o[2]):
+            t = fn.term(o[1]) if isinstance(o[1], int) else None
+            if t and t['k'] == 'call' and t['a']:
+                ro = operand_origins(fn, t['a'][0])
+                if any(x[0] == 'call' and re.search(r'<impl str>::(chars|char_indices)$', x[2]) for x in ro) and not any(x[0] == 'call' and x[2].endswith('encode_utf16') for x in ro):
+                    return True
+    return False
